@@ -147,6 +147,12 @@ SITES = [
     ("restoreMappingGuard", "lib/lpc/object.c", r"if \(\+\+count > CONFIG_INT \(__MAX_MAPPING_SIZE__\)\)" + W + r"\{.{0,400}?mapping_too_large \(\);", 1, None),
     ("handlerNestedKeepsState", "src/error_context.c", r"if \(current_error_context == mudlib_error_handler_context\)" + W + r"\{" + W + r"in_mudlib_error_handler = 0;" + W + r"set_error_state \(handler_limit_state\);" + W + r"\}", 2, None),
     ("handlerSavesState", "src/error_context.c", r"handler_limit_state = limit_state;" + W + r"in_mudlib_error_handler = 1;" + W + r"mudlib_error_handler_context = current_error_context;", 2, None),
+    ("handlerTraceBeforeRestore", "src/error_context.c", r"mret = apply_master_ob \(APPLY_ERROR_HANDLER, 1\);" + W + r"\}" + W + r"if \(\(svalue_t \*\) - 1 == mret \|\| NULL == mret\)" + W + r"\{" + W + r"debug_message_with_location \(err\);" + W + r"dump_trace \(g_trace_flag\);", 1, None),
+    ("regexpStepCharge", "lib/efuns/regexp.c", r"#define REGEXP_STEPS_PER_TICK (\d+)", 1, "regexpStepsPerTick"),
+    ("regexpStepTest", "lib/efuns/regexp.c", r"while \(scan != \(char \*\) NULL\)" + W + r"\{" + W + r"if \(--regsteps < 0\)" + W + r"return \(0\);", 1, None),
+    ("regexpChargeBack", "lib/efuns/regexp.c", r"regsteps = budget;" + W + r"ret = regexec_steps \(prog, string\);" + W + r"used = \(budget - \(regsteps > 0 \? regsteps : 0\)\) / REGEXP_STEPS_PER_TICK;" + W + r"if \(eval_cost > 1\)" + W + r"eval_cost = \(used >= eval_cost - 1\) \? 1 : eval_cost - used;", 1, None),
+    ("catchAtDepthMarked", "src/frame.c", r"if \(!save_context \(&econ\)\)" + W + r"\{" + W + r"(?:/\*.*?\*/)?" + W + r"set_error_state \(ES_STACK_FULL\);" + W + r"error \(\"\*Can't catch too deep recursion error", 1, None),
+    ("traceInTraceWithoutArgs", "src/error_context.c", r"if \(in_error\)" + W + r"\{.{0,200}?debug_message_with_location \(err\);" + W + r"(?:/\*.*?\*/)?" + W + r"dump_trace \(0\);", 1, None),
     ("setLimitCast", "lib/efuns/unsorted.c", r"default:" + W + r"CONFIG_INT \(__MAX_EVAL_COST__\) = \(int\)sp->u.number;" + W + r"if \(CONFIG_INT \(__MAX_EVAL_COST__\) < 1\)", 1, None),
     ("aggregateAlloc", "src/interpret.c", r"unsigned short offset;.{0,60000}?case F_AGGREGATE:" + W + r"\{" + W + r"array_t \*v;" + W + r"LOAD_SHORT \(offset, pc\);" + W + r"offset \+= \(unsigned short\)num_varargs;" + W + r"num_varargs = 0;" + W + r"v = allocate_empty_array \(\(int\) offset\);", 1, None),
     ("callbackTickBlock", "src/interpret.c", r"svalue_t\* call_efun_callback \(function_to_call_t \* ftc, int n\) \{" + W + r"svalue_t \*v;" + W + r"(?:/\*.*?\*/)?" + W + r"if \(!--eval_cost\)" + W + r"\{" + W + r"set_error_state \(ES_MAX_EVAL_COST\);" + W + r"eval_cost = CONFIG_INT \(__MAX_EVAL_COST__\);" + W + r"error", 1, None),
@@ -345,7 +351,58 @@ def gen_loop(repo):
                   "localCallOps": calls, "helpers": helpers}
 
 
-BASE_CONF = "MaxCallDepth 200\nStackSize 2000\n"
+
+# ---------------------------------------------------------------------------
+# translator, part 4 (gen_refills): every statement of the driver that WRITES eval_cost or the configured budget
+# (CONFIG_INT (__MAX_EVAL_COST__)).  Regenerated into NV/Gen/C04.lean as `evalCostWrites : List (file, function, statement)`;
+# NV/C04/Refill.lean holds the table of rules (`refillRules`) that justifies each of them, `bridge_refills` compares the two:
+# a new place that refills or lowers the budget breaks the obligation until it is given a rule.
+
+REFILL_FILES_SKIP = ("lib/efuns/func_spec.c",)
+
+
+def gen_refills(repo):
+    import re
+    rx = re.compile(r"\beval_cost\s*(?:=(?!=)|\+=|-=|\+\+|--)|(?:--|\+\+)\s*eval_cost\b|CONFIG_INT\s*\(\s*__MAX_EVAL_COST__\s*\)\s*=(?!=)")
+    rows = []
+    for top in ("src", "lib"):
+        for d, _, files in sorted(os.walk(os.path.join(repo, top))):
+            for fn in sorted(files):
+                if not fn.endswith((".c", ".cpp")):
+                    continue
+                rel = os.path.relpath(os.path.join(d, fn), repo)
+                if rel in REFILL_FILES_SKIP or "/tests/" in rel:
+                    continue
+                raw = open(os.path.join(repo, rel), errors="replace").read()
+                if "eval_cost" not in raw and "__MAX_EVAL_COST__" not in raw:
+                    continue
+                text = _drop_hooks(_strip_c(raw))
+                heads = [(m.start(), m.group(1)) for m in re.finditer(
+                    r"^(?:[A-Za-z_][\w \t\*\"]*?[ \t\*])?(\w+)[ \t]*\([^;{}]*\)[ \t]*\{?[ \t]*$", text, flags=re.M)
+                    if m.group(1) not in ("if", "while", "for", "switch", "return", "sizeof", "defined")]
+                for m in rx.finditer(text):
+                    depth = text.count("{", 0, m.start()) - text.count("}", 0, m.start())
+                    name = "<file scope>"
+                    if depth > 0:
+                        before = [h for h in heads if h[0] < m.start()]
+                        name = before[-1][1] if before else "<unknown>"
+                    a = text.rfind("\n", 0, m.start()) + 1
+                    b = text.find("\n", m.end())
+                    stmt = " ".join(text[a:b if b >= 0 else len(text)].split())
+                    stmt = re.sub(r"\b\d{2,}\b", "N", stmt)      # (a default value is not part of the rule; `1` and `0` are)
+                    rows.append((rel, name, stmt))
+    rows = sorted(rows)
+    q = lambda t: '"' + t.replace("\\", "\\\\").replace('"', '\\"') + '"'
+    lean = "\n".join(["", "/-! every statement that writes eval_cost or the configured budget (props/c04.py: gen_refills) -/",
+                      "def evalCostWrites : List (String × String × String) := ["] +
+                     [",\n".join("  (%s, %s, %s)" % (q(a), q(b), q(c)) for a, b, c in rows)] + ["]", ""])
+    return lean, rows
+
+
+# every limit the cases rely on is written into the config file (not left to the defaults of lib/rc/rc.cpp: the `Limits`
+# defaults of NV/C04/Spec.lean and the loop forms / local counts of the generator are the same numbers)
+BASE_CONF = ("MaxCallDepth 200\nStackSize 2000\nMaxEvaluationCost 1000000\nMaxArraySize 15000\nMaxBufferSize 4000000\n"
+             "MaxMappingSize 15000\nMaxStringLength 200000\nMaxLocalVariables 25\n")
 
 
 # ---------------------------------------------------------------------------
@@ -430,8 +487,34 @@ SPIN_FORMS = [
 SPIN_MIN_ITERATIONS = 100
 
 
-def lpc_of(root):
+# configuration / master variants a machine case can run under (one harness process per variant; `conf <name>` line)
+CONF_VARIANTS = {
+    "eh-args": ("/c04/master.c", "ArgumentsInTrace Yes\n"),
+    "eh-locals": ("/c04/master.c", "LocalVariablesInTrace Yes\n"),
+    "noeh": ("/c04/master_noeh.c", ""),
+    "noeh-args": ("/c04/master_noeh.c", "ArgumentsInTrace Yes\n"),
+    "noeh-locals": ("/c04/master_noeh.c", "LocalVariablesInTrace Yes\n"),
+    "noeh-both": ("/c04/master_noeh.c", "ArgumentsInTrace Yes\nLocalVariablesInTrace Yes\n"),
+}
+# what every function of the program is handed as its argument and keeps in a local (the frames of the trace hold it)
+ARG_KINDS = {
+    "obj": "this_object ()", "arr": "({ this_object (), 1 })", "map": "([ \"k\" : this_object () ])", "str": "\"s\"", "int": "7",
+}
+
+
+def with_arguments(src, argkind):
+    """every node function takes one argument and keeps it in a local; every call passes a value of the given kind"""
+    import re
+    head, sep, rest = src.partition("string safe_fn")
+    rest = re.sub(r"\bmixed (f\d+(?:_b)?) \(\)( \{ )?", lambda m: "mixed %s (mixed arg0)%s" % (m.group(1), " { mixed lv0 = arg0; " if m.group(2) else ""), rest)
+    rest = re.sub(r"\b(f\d+(?:_b)?) \(\)", lambda m: "%s (%s)" % (m.group(1), ARG_KINDS[argkind]), rest)
+    return head + sep + rest
+
+
+def lpc_of(root, argkind=None):
     """one LPC function per node; returns the source text"""
+    if argkind:
+        return with_arguments(lpc_of(root), argkind)
     out = [HEADER % root.term()]
     cnt = [0]
 
@@ -514,10 +597,10 @@ def lpc_of(root):
     return "\n".join(out) + "\n"
 
 
-def machine_case(cid, root, cost, depth, stack, hc=0, meta=None, idx=None, via="cfgint"):
+def machine_case(cid, root, cost, depth, stack, hc=0, meta=None, idx=None, via="cfgint", conf=None, argkind=None):
     idx = idx or {}
     name = "/c04/g_%s" % "".join(ch if ch.isalnum() else "_" for ch in cid)
-    src = lpc_of(root)
+    src = lpc_of(root, argkind)
     if via == "reconf":      # through init_config () of lib/rc/rc.cpp (resets the other limits: must come first)
         first = ["reconf MaxEvaluationCost %d" % cost]
     elif via == "setlimit":  # through the efun set_eval_limit ()
@@ -525,7 +608,7 @@ def machine_case(cid, root, cost, depth, stack, hc=0, meta=None, idx=None, via="
     else:
         first = ["cfgint %d %d" % (idx.get("cfgEvalCost", 8), cost)]
     # (objects are loaded before the budget is lowered: create () runs under the budget, too)
-    lines = ["lpc %s.c %s" % (name, src.encode().hex()), "load p %s" % name] + first + ["depth %d" % depth, "stack %d" % stack]
+    lines = (["conf %s" % conf] if conf else []) + ["lpc %s.c %s" % (name, src.encode().hex()), "load p %s" % name] + first + ["depth %d" % depth, "stack %d" % stack]
     if hc:
         lines.append("mset set_handler_catches %d" % hc)
     lines += ["shape %s" % root.term(), "ev p main"]
@@ -546,12 +629,13 @@ class C04(Prop):
                 "NV.C04.bridge_stackSlack", "NV.C04.bridge_depthTest", "NV.C04.bridge_clamp", "NV.C04.bridge_safeTick",
                 "NV.C04.bridge_esBits", "NV.C04.bridge_widths",
                 "NV.C04.sizes_bounded_round4", "NV.C04.compose_count_exact", "NV.C04.save_depth_bounded", "NV.C04.restore_depth_bounded",
-                "NV.C04.loop_iterations_charged", "NV.C04.bridge_backwardOps", "NV.C04.bridge_saveWalk", "NV.C04.bridge_casts"]
+                "NV.C04.loop_iterations_charged", "NV.C04.bridge_backwardOps", "NV.C04.bridge_saveWalk", "NV.C04.bridge_casts",
+                "NV.C04.bridge_refills", "NV.C04.refill_rules_sound", "NV.C04.regex_charge_bounded"]
     witness_theorems = ["NV.C04.eval_unbounded_at_zero_budget", "NV.C04.eval_bound_attained_through_safe_apply",
                         "NV.C04.sprintf_exceeds_small_limit", "NV.C04.array_size_wraps",
                         "NV.C04.buffer_size_wraps", "NV.C04.repeat_string_old_wraps",
                         "NV.C04.compose_count_wraps_16", "NV.C04.save_variable_old_exceeds",
-                        "NV.C04.handler_lost_limit_state_before_fix"]
+                        "NV.C04.handler_lost_limit_state_before_fix", "NV.C04.handler_early_restore_loses_state"]
     consts = CONSTS
     const_headers = ["src/interpret.h", "lib/rc/rc.h", "lib/lpc/include/runtime_config.h", "lpc/array.h", "lpc/buffer.h",
                      "lpc/mapping.h", "src/stralloc.h", "src/backend.h"]
@@ -573,8 +657,9 @@ class C04(Prop):
                   "array / buffer / mapping / string constructor incl. mapping * mapping, save_variable / restore_variable, regexp, "
                   "reg_assoc for all operand sizes and int64 arguments - szCmd_satisfies_spec: the size clause never fires on the model's "
                   "answer to any constructor command; (4) the depth-limited value walks (svalue_save_size, copy) for every value; "
-                  "(5) mapping count = nodes across inserts, partially applied `+=` and in-place `*=`.  Tied to the source by regenerated "
-                  "constants, 54 guard sites, the opcode lists, and by running generated LPC programs and constructor calls on the real "
+                  "(5) mapping count = nodes across inserts, partially applied `+=` and in-place `*=`; (6) every statement that writes eval_cost "
+                  "or the configured budget, regenerated as an inventory and justified by a rule table; regexp matching charged against the budget.  Tied to the source by regenerated "
+                  "constants, 63 guard sites, the opcode lists, the refill inventory, and by running generated LPC programs and constructor calls on the real "
                   "driver under small limits; the Lean oracle judges every implementation trace")
     level_note = ("trusted: Lean kernel; extract.py; props/c04.py as the translator from a shape term to LPC source and as the "
                   "(regex / brace-matching) reader of the guard sites and of eval_instruction's switch; the correspondence harness "
@@ -595,12 +680,13 @@ class C04(Prop):
             "constructor with its ok/err counts and the loop opcodes executed in budget-stopped runs; a case is non-trivial when its "
             "trace has >= 2 lines; distinct = distinct canonical implementation trace")
     not_covered = ["work done inside one efun call that makes no callback (hashing, copying, `%*s` padding, unique_array's group search) is bounded by the size limits, not by the evaluation cost",
-                   "instructions the master's error handler executes after a limit error (it runs on a refreshed budget; bounded by an allowance in the oracle, not modelled); in_error nesting beyond the two repaired paths",
+                   "instructions executed for an error delivery (master error_handler, or the driver's trace): counted per delivery and bounded by an allowance of 250 per measured delivery, not executed by the machine; fatal-error paths of error_handler",
                    "C recursion depth of walks that have no limit of their own: sprintf(\"%O\") through nested function-pointer arguments, free_svalue on values nested tens of thousands deep (observations in notes/C04.md: stack overflow of the driver reachable with the default budget; C01 material)",
                    "wall-clock time and memory of a single efun call",
                    "unchecked value-stack pushes by the interpreter itself (F_PUSH, argument pushes, merge_arg_lists): confirmed defect that belongs to C01; the slots above StackSize are watched for the generated programs only",
                    "efuns excluded from the size decisions: see EFUN_EXCLUDED in props/c04.py (each with its reason; the check fails when an efun returning a sized value is in neither table); classes rebuilt by restore_variable are not limited by MaxArraySize",
-                   "set_eval_limit(0): a privileged efun that resets the running budget by design",
+                   "set_eval_limit(): the statements are in the refill inventory as privileged rules; that only privileged code reaches the efun (simul_efun wrapper, valid_override) is not checked",
+                   "time of single efuns is polynomial in the size limits (sprintf field width up to 2^31 iterations, unique_array quadratic in MaxArraySize): measured, not modelled; only regexp backtracking is charged",
                    "the real backend loop (eval_cost reset before each task is located as a site, the harness makes the same assignment)"]
     trusted = ["props/c04.py: shape term -> LPC source translator", "props/c04.py: gen_loop (reader of eval_instruction's loop and switch)"]
 
@@ -611,16 +697,29 @@ class C04(Prop):
             except Exception:
                 self.loop_info = {"backwardOps": []}
         backops = "".join('{"%s",%s},' % (o, o) for o in self.loop_info.get("backwardOps", []))
-        self.exe = E.compile_harness("c04", [os.path.join(E.VERIF, "harness/c04/c04.c")], extra=["-DC04_BACKOPS=" + backops])
+        # (the harness lowers end_of_stack with the formula of reset_interpreter: the slack is the regenerated one)
+        slack = (getattr(self, "site_consts", None) or {}).get("stackSlackSrc", 5)
+        self.exe = E.compile_harness("c04", [os.path.join(E.VERIF, "harness/c04/c04.c")],
+                                     extra=["-DC04_BACKOPS=" + backops, "-DC04_STACK_SLACK=%d" % slack])
         self.conf = E.make_mudlib(ctx.rundir, master="/c04/master.c", extra_conf=BASE_CONF)
+        self.confs = {}
+        base = open(self.conf).read()
+        for vname, (master, extra) in CONF_VARIANTS.items():
+            text = "".join(("MasterFile\t    %s\n" % master) if l.startswith("MasterFile") else l for l in base.splitlines(True))
+            path = os.path.join(ctx.rundir, "verif-%s.conf" % vname)
+            with open(path, "w") as f:
+                f.write(text + extra)
+            self.confs[vname] = path
         self.idx = dict(getattr(ctx, "gen_vals", {}) or {})
         self.raw = {}
 
     def gen_extra(self, ctx, bdir):
         text, consts, report = gen_sites(E.REPO)
         self.site_report = report
+        self.site_consts = consts
         loop_text, self.loop_info = gen_loop(E.REPO)
-        return text + loop_text
+        refill_text, self.refill_rows = gen_refills(E.REPO)
+        return text + loop_text + refill_text
 
     def extra_checks(self, ctx, tier, rng):
         inv = efun_inventory(E.REPO)
@@ -654,7 +753,15 @@ class C04(Prop):
         return problems
 
     def run_impl(self, ctx, cases):
-        res = E.run_harness(self.exe, self.conf, cases, ctx.rundir, args=["--timeout", os.environ.get("NV_C04_TIMEOUT", "6")])
+        # one harness process per configuration / master variant (`conf <name>` as the first line of a case)
+        groups = {}
+        for c in cases:
+            v = c.lines[0].split()[1] if c.lines and c.lines[0].startswith("conf ") and len(c.lines[0].split()) == 2 else ""
+            groups.setdefault(v if v in getattr(self, "confs", {}) else "", []).append(c)
+        res = {}
+        for v, cs in groups.items():
+            res.update(E.run_harness(self.exe, self.confs[v] if v else self.conf, cs, ctx.rundir,
+                                     args=["--timeout", os.environ.get("NV_C04_TIMEOUT", "6")]))
         for k, v in res.items():
             self.raw[k] = list(v)
         return res
@@ -666,7 +773,7 @@ class C04(Prop):
         if not (has("ev ") or has("sz ")):
             return False
         if has("ev p "):
-            return has("lpc ") and has("load p ") and has("shape ")
+            return has("lpc ") and has("load p ") and has("shape ") and (lines[0].startswith("conf ") or not has("conf "))
         if has("sz ") or has("ev sizes "):
             return has("load sizes ")
         return True
@@ -683,8 +790,8 @@ class C04(Prop):
 
 
     # ---- generators ------------------------------------------------------
-    def mk(self, cid, root, cost=3000, depth=20, stack=300, hc=0, origin="boundary"):
-        return machine_case(cid, root, cost, depth, stack, hc, {"origin": origin}, self.idx_or_default())
+    def mk(self, cid, root, cost=3000, depth=20, stack=300, hc=0, origin="boundary", conf=None, argkind=None):
+        return machine_case(cid, root, cost, depth, stack, hc, {"origin": origin}, self.idx_or_default(), conf=conf, argkind=argkind)
 
     def idx_or_default(self):
         d = {"cfgEvalCost": 8, "cfgMaxArray": 11, "cfgMaxBuffer": 12, "cfgMaxMapping": 13, "cfgMaxString": 14}
@@ -705,6 +812,11 @@ class C04(Prop):
         ix = self.idx_or_default()
         return E.Case(cid, ["cfgint %d %d" % (ix["cfgMaxMapping"], limit), "load sizes /c04/sizes", "ev sizes mapseq " + ",".join(ops)],
                       {"origin": origin, "kind": "mapseq"})
+
+    def rx_case(self, cid, cost, n, origin="boundary"):
+        ix = self.idx_or_default()
+        return E.Case(cid, ["cfgint %d %d" % (ix["cfgEvalCost"], cost), "load sizes /c04/sizes", "ev sizes rx %d" % n],
+                      {"origin": origin, "kind": "rx"})
 
     def gen_mapseq(self, rng, cid):
         """inserts and in-place `m += m2` on one mapping, each inside catch.  `present` = keys certainly in the mapping;
@@ -799,6 +911,33 @@ class C04(Prop):
             B.append(self.mk("b-hf%d-safe-spin-loop" % mode, Bk(3, A(S)), cost=2000, hc=mode))
         B.append(self.mk("b-hf3-c2-spin", Q(C(C(S)), W(50)), hc=3))
         B.append(self.mk("b-hf3-safe-spin", Q(A(S), W(10)), cost=2000, hc=3))
+        # error delivery without a master error_handler (): the driver's own trace, which with ArgumentsInTrace /
+        # LocalVariablesInTrace applies master::object_name through safe_apply for every object value of every frame
+        k = 0
+        for conf in sorted(CONF_VARIANTS):
+            for argkind in ("obj", "arr", "map", "str"):
+                for name, root, kw in (("c-spin-work", Q(C(S), W(50)), {}), ("c2-rec", C(C(R(2))), {}),
+                                       ("cb-c-spin", Q(Bk(2, C(N("S", form=3))), W(5)), {"cost": 2000}),
+                                       ("c-err-spin", Q(C(E_), C(N("S", form=1))), {})):
+                    k += 1
+                    if conf.startswith("eh") and k % 3:      # (with a handler the trace is not printed: a third of the combinations)
+                        continue
+                    B.append(self.mk("b-%s-%s-%s" % (conf, argkind, name), root, conf=conf, argkind=argkind, **kw))
+        # repaired: catch () at full depth marks its error (no master error_handler () needed to keep it from enclosing catches)
+        for conf in ("noeh", "noeh-args", "eh-args"):
+            B.append(self.mk("b-%s-crecur-even" % conf, Q(X, W(5)), depth=20, conf=conf, argkind="obj"))
+            B.append(self.mk("b-%s-crecur-odd" % conf, Q(C(X), W(5)), depth=21, conf=conf, argkind="str"))
+        # repaired: an error while the trace is printed (no budget for master::object_name) does not print traces recursively
+        for conf in ("eh-args", "noeh-both", "eh-locals"):
+            B.append(machine_case("b-%s-budget1" % conf, Q(F(2, E_), E_), -2, 30, 300, 0, {"origin": "boundary"}, self.idx_or_default(),
+                                  "setlimit", conf=conf, argkind="obj"))
+        # repaired: the trace of a stack overflow raised while a frame is being set up does not read that frame's variables
+        for conf in ("noeh-locals", "eh-locals", "noeh-both", "eh-args"):
+            B.append(self.mk("b-%s-rec-locals-stack" % conf, Q(R(20, 3), W(5)), depth=150, stack=300, conf=conf, argkind="str"))
+            B.append(self.mk("b-%s-rec-cbargs-stack" % conf, R(12, 4), depth=150, stack=200, conf=conf, argkind="arr"))
+        # callbacks whose work adds up to more than the budget: the expiry comes inside one of them
+        B.append(self.mk("b-cb-overbudget-map", Q(Bk(40, W(60)), W(5)), cost=2000))
+        B.append(self.mk("b-cb-overbudget-filter", C(Bk(60, W(25, 1), 1)), cost=2000))
         B.append(self.mk("b-cb-c-spin", Bk(3, C(C(S)))))
         B.append(self.mk("b-c-cb-spin", C(Bk(2, S, 1))))
         B.append(self.mk("b-c-call-c-spin", C(F(2, C(F(1, S))))))
@@ -873,6 +1012,8 @@ class C04(Prop):
                                   "keys 50", "keys 51", "values 80", "filter_mapping 80 30", "filter_mapping 80 0", "map_mapping 80", "map_mapping 81", "allocate_mapping 1000000", "allocate_mapping -1"]))
         B.append(self.sizes_case("b-sz-wide", {"array": 70000, "buffer": 200000, "string": 100000},
                                  ["allocate 65535", "allocate_buffer 65535", "join 60000 30000", "sprintf 30000 30000", "sprintf 60000 40000"]))
+        B.append(self.sizes_case("b-sz-wide-string", {"string": 65535, "array": 70000},
+                                 ["join 65535 1", "join 65000 535", "join_eq 40000 25536", "join_self 32768 1", "repeat 2 32768", "implode 2 32768 0"]))
         B.append(self.sizes_case("b-sz-sprintf", {"string": 200}, ["sprintf 100 100", "sprintf 100 101", "sprintf 200 100", "sprintf 1 1"]))
         # round 4: mapping * mapping (repaired: the 16-bit `deleted` counter), save / restore_variable, regexp, reg_assoc
         B.append(self.sizes_case("b-sz-compose-wide", {"mapping": 70000, "array": 80000},
@@ -892,6 +1033,9 @@ class C04(Prop):
         B.append(self.sizes_case("b-sz-regexp", {"string": 1000, "array": 100},
                                  ["regexp 100 50 1", "regexp 100 51 1", "regexp 100 100 0", "regexp 100 30 2", "regexp 100 49 3", "regexp 100 50 3",
                                   "regexp 0 0 1", "regexp 101 0 0", "reg_assoc 49", "reg_assoc 50", "reg_assoc 0", "reg_assoc 1"]))
+        # regexp backtracking is charged against the budget: far below / far above what 100 node visits per tick allow
+        for cost, n in ((20000, 3), (20000, 12), (20000, 45), (20000, 60), (5000, 40), (5000, 200), (1000000, 10)):
+            B.append(self.rx_case("b-rx-%d-%d" % (cost, n), cost, n))
         B.append(self.mapseq_case("b-map-compose", 20, ["a100:15:15", "c105:5:5", "i300n", "cs:6", "a400:20:20", "c0:0:0", "i1n", "a500:19:19", "i2n"]))
         return B
 
@@ -946,7 +1090,18 @@ class C04(Prop):
             if rng.chance(1, 12):       # a budget that the driver clamps to 1
                 cost = rng.choice([0, -1, -3000]) if via != "setlimit" else rng.choice([-2, -3000, 4294967296])
                 via = "reconf" if via == "cfgint" else via
-            return machine_case(cid, root, cost, depth, stack, hc, {"origin": "generated"}, self.idx_or_default(), via)
+            conf = argkind = None
+            if rng.chance(1, 6) and not root.has(("A",)):
+                # (no safe applies there: the variant masters answer object_name themselves, for the trace)
+                conf = rng.choice(sorted(CONF_VARIANTS))
+                argkind = rng.choice(["obj", "obj", "arr", "map", "str", "int"])
+                if conf.startswith("noeh"):
+                    hc = 0
+                else:
+                    # (a handler that fails makes the driver print its own trace; /c04/master.c answers object_name by calling back
+                    # into the program - its cost per traced object is the program's, not a constant the oracle could allow for)
+                    hc = min(hc, 1)
+            return machine_case(cid, root, cost, depth, stack, hc, {"origin": "generated"}, self.idx_or_default(), via, conf=conf, argkind=argkind)
         return self.mk(cid, Node("C", kids=[Node("C", kids=[Node("S")])]), origin="generated")
 
     def gen_sizes(self, rng, cid):
@@ -1095,7 +1250,10 @@ class C04(Prop):
     def generate(self, rng, n, tier):
         out = []
         for i in range(n):
-            if i % 8 == 7:
+            if i % 40 == 39:
+                cost = rng.choice([5000, 20000, 50000])
+                out.append(self.rx_case("g%d" % i, cost, rng.choice([1, 5, 10, 12, 45, 60, 100, 500]), "generated"))
+            elif i % 8 == 7:
                 out.append(self.gen_mapseq(rng, "g%d" % i))
             elif i % 2 == 0:
                 out.append(self.gen_machine(rng, "g%d" % i))
